@@ -8,7 +8,7 @@ node straight from the Python AST. We build a CFG, check it, and return a
 import ast
 import sys
 from dataclasses import dataclass, replace
-from typing import TYPE_CHECKING, ClassVar, cast
+from typing import TYPE_CHECKING, Any, ClassVar, cast
 
 from guppylang_internals.ast_util import return_nodes_in_ast, with_loc
 from guppylang_internals.cfg.bb import BB
@@ -130,6 +130,10 @@ class SelfParamsShadowedError(Error):
             return f'{parent.self_arg}: "{parent.ty_defn.name}{params}"'
 
 
+#: Marks a name without a binding in the user's namespace
+_UNBOUND: Any = object()
+
+
 def check_global_func_def(
     func_def: ast.FunctionDef, ty: FunctionType, globals: Globals
 ) -> CheckedCFG[Place]:
@@ -208,6 +212,7 @@ def check_nested_func_def(
     ]
     def_id = DefId.fresh()
     globals = ctx.globals
+    rebound, shadowed = False, _UNBOUND
 
     # Check if the body contains a free (recursive) occurrence of the function name.
     # By checking if the name is free at the entry BB, we avoid false positives when
@@ -221,12 +226,22 @@ def check_nested_func_def(
             func = ParsedFunctionDef(def_id, func_def.name, func_def, func_ty, None)
             DEF_STORE.register_def(func, None)
             ENGINE.parsed[def_id] = func
+            # The dict belongs to the Python frame that holds the user's definitions,
+            # so the name may only be bound there while the body is checked
+            rebound = True
+            shadowed = globals.f_locals.get(func_def.name, _UNBOUND)
             globals.f_locals[func_def.name] = GuppyDefinition(func)
         else:
             # Otherwise, we treat it like a local name
             inputs.append(Variable(func_def.name, func_def.ty, func_def))
 
-    checked_cfg = check_cfg(cfg, inputs, func_ty.output, {}, func_def.name, globals)
+    try:
+        checked_cfg = check_cfg(cfg, inputs, func_ty.output, {}, func_def.name, globals)
+    finally:
+        if rebound and shadowed is _UNBOUND:
+            globals.f_locals.pop(func_def.name, None)
+        elif rebound:
+            globals.f_locals[func_def.name] = shadowed
     checked_def = CheckedNestedFunctionDef(
         def_id,
         checked_cfg,
